@@ -255,7 +255,8 @@ fn run_case<T: Est>(params: &[&str], ops: &[Vec<&str>], out: &mut String) {
                     threads: op[2].parse().unwrap(),
                     min_len: op[3].parse().unwrap(),
                     max_len: op[4].parse().unwrap(),
-                    byref: op[5] == "r",
+                    byref: op[5] == "r" || op[5] == "br",
+                    bridge: op[5] == "b" || op[5] == "br",
                     delay_seed: op[6].parse().unwrap(),
                     filter_seed: if op[7].starts_with('t') { 0 } else { op[7].parse().unwrap() },
                     filter_ge: if op[7].starts_with('t') { pf(&op[7][1..]) } else { f64::NAN },
